@@ -442,6 +442,61 @@ def singleton_repair():
     TRUE.con_val, TRUE.sym_val, FALSE.con_val, FALSE.sym_val = True, None, False, None
 
 
+CON = {0: None, 1: False, 2: True}
+SYM = {0: "None", 1: "<term>"}
+
+
+def bool_ctor_cases():
+    """(description, value, kind, v, s, constant value of the result or None): every kind of value
+    HalmosBool(..) accepts; s = what z3's simplify makes of the term involved (0 true, 1 false, 2 neither)"""
+    import z3
+    from halmos.bitvec import FALSE, TRUE, HalmosBitVec, HalmosBool
+
+    b = z3.Bool("c06_ctor_b")
+    x = z3.BitVec("c06_ctor_x", 256)
+    other = HalmosBool(z3.Bool("c06_ctor_q"))
+
+    def sk(t):
+        st = z3.simplify(t)
+        return 0 if z3.is_true(st) else 1 if z3.is_false(st) else 2
+
+    out = [("True", True, 0, 1, 2, True), ("False", False, 0, 0, 2, False)]
+    terms = [("BoolVal(True)", z3.BoolVal(True)), ("BoolVal(False)", z3.BoolVal(False)), ("And(b, Not(b))", z3.And(b, z3.Not(b))),
+             ("Or(b, Not(b))", z3.Or(b, z3.Not(b))), ("b", b), ("Not(b)", z3.Not(b)), ("x == x", x == x), ("ULT(x, x)", z3.ULT(x, x)),
+             ("x == 0", x == 0), ("And(b, True)", z3.And(b, True)), ("UGE(x, 0)", z3.UGE(x, 0)), ("Xor(b, b)", z3.Xor(b, b))]
+    for d, t in terms:
+        s = sk(t)
+        out.append((d, t, 1, 0, s, None if s == 2 else s == 0))
+    out.append(("'c06_ctor_name'", "c06_ctor_name", 2, 0, 2, None))
+    out += [("TRUE", TRUE, 3, 0, 2, True), ("FALSE", FALSE, 3, 1, 2, False), ("<symbolic HalmosBool>", other, 3, 2, 2, None)]
+    for v in (0, 1, 5, M256, 1 << 255):
+        out.append((f"HalmosBitVec({v})", HalmosBitVec(v, size=256), 4, v, 2, v != 0))
+    for d, t in [("HalmosBitVec(x)", x), ("HalmosBitVec(If(b, 1, 2))", z3.If(b, z3.BitVecVal(1, 256), z3.BitVecVal(2, 256))),
+                 ("HalmosBitVec(x & 0)", x & 0), ("HalmosBitVec(x | 1)", x | 1)]:
+        hv = HalmosBitVec(t, size=256)
+        if hv.is_concrete:
+            out.append((d, hv, 4, hv.value, 2, hv.value != 0))
+        else:
+            s = sk(hv.value != 0)
+            out.append((d, hv, 5, 0, s, None if s == 2 else s == 0))
+    return out
+
+
+def bool_ctor_observe(arg):
+    """[object returned: 0 TRUE 1 FALSE 2 fresh 3 the one passed; its con/sym; TRUE con/sym; FALSE con/sym]"""
+    from halmos.bitvec import FALSE, TRUE, HalmosBool
+
+    def con(o):
+        return 0 if o.con_val is None else 2 if o.con_val else 1
+
+    def sym(o):
+        return 0 if o.sym_val is None else 1
+
+    r = HalmosBool(arg)
+    rc = 0 if r is TRUE else 1 if r is FALSE else 3 if r is arg else 2
+    return [rc, con(r), sym(r), con(TRUE), sym(TRUE), con(FALSE), sym(FALSE)]
+
+
 def impl_case(case):
     """Run one case on the real code.  Returns a JSON-able observation."""
     import signal
@@ -1345,6 +1400,41 @@ def run(rep, tier):
     except Exception as e:  # noqa: BLE001
         rep.fail("broken-tie", f"pure-function tie crashed: {type(e).__name__}: {e}"[:300], case={})
 
+    # L0: HalmosBool(<value>) - __new__ + __init__ - and the TRUE / FALSE singletons (theorems
+    # C06_singletons_preserved / C06_bool_ctor_denotes; model entry c06_boolctor)
+    try:
+        ctor_cases = bool_ctor_cases()
+        cobs = []
+        for desc, arg, kind, v, s, want in ctor_cases:
+            singleton_repair()
+            try:
+                o = bool_ctor_observe(arg)
+            except Exception as e:  # noqa: BLE001
+                o = f"exc:{type(e).__name__}"
+            cobs.append(o)
+            case = {"lvl": "L0", "op": "HalmosBool", "arg": desc, "ops": [[kind, v]], "vals": [[v, s]]}
+            rep.case({"bool_ctor": desc}, nontrivial=True)
+            rep.count("op", "HalmosBool(..)")
+            if isinstance(o, str):
+                fl.failing_input(f"HalmosBool({desc}): internal exception {o}", case, {"op": "HalmosBool.__init__", "class": "exception:" + o.split(":")[-1]})
+            elif o[3:] != [2, 0, 1, 0]:
+                fl.failing_input(f"HalmosBool({desc}): afterwards the singletons are TRUE(con_val={CON[o[3]]}, sym_val {SYM[o[4]]}) FALSE(con_val={CON[o[5]]}, sym_val {SYM[o[6]]}); "
+                                 "they must stay TRUE(True, None) / FALSE(False, None): bool(TRUE), TRUE.is_concrete, int(TRUE) are wrong from now on", case,
+                                 {"op": "HalmosBool.__init__", "class": "singleton-mutated"})
+            elif want is not None and (o[1], o[2]) != ((2 if want else 1), 0):
+                fl.failing_input(f"HalmosBool({desc}): the object returned has con_val={CON[o[1]]}, sym_val {SYM[o[2]]}; the value is the constant {want}", case,
+                                 {"op": "HalmosBool.__init__", "class": "wrong-value"})
+        singleton_repair()
+        rep.count("level", "L0", len(ctor_cases))
+        if exe is not None:
+            mres = Model(exe).batch([("c06_boolctor", [kind, v, s]) for _, _, kind, v, s, _ in ctor_cases])
+            for (desc, _, kind, v, s, _), o, m_ in zip(ctor_cases, cobs, mres):
+                if not isinstance(o, str) and m_ != o:
+                    fl.broken_tie(f"HalmosBool({desc}): model {m_}, implementation {o}  ([object, con, sym, TRUE.con, TRUE.sym, FALSE.con, FALSE.sym])",
+                                  {"lvl": "L0", "op": "HalmosBool", "arg": desc, "ops": [[kind, v]], "vals": [[v, s]]})
+    except Exception as e:  # noqa: BLE001
+        rep.fail("broken-tie", f"HalmosBool constructor tie crashed: {type(e).__name__}: {e}"[:300], case={})
+
     # big exponents: real HalmosBitVec.exp in the guarded child vs the spec, the extracted model and
     # the model's work prediction
     big_res = finish_big_exp(big_proc, len(big), big_deadline)
@@ -1401,6 +1491,14 @@ def replay(rep, body):
             print("not a case:", f.get("what"))
             continue
         print("case          :", json.dumps(case, default=str)[:600])
+        if case.get("op") == "HalmosBool":
+            for desc, arg, *_ in bool_ctor_cases():
+                if desc == case.get("arg"):
+                    singleton_repair()
+                    print("implementation: [object, con, sym, TRUE.con, TRUE.sym, FALSE.con, FALSE.sym] =", bool_ctor_observe(arg),
+                          " (must end with 2, 0, 1, 0)")
+                    singleton_repair()
+            continue
         print("implementation:", impl_case(case))
         print("spec          :", spec_obs(case))
     return 0
